@@ -109,7 +109,7 @@ def vary(mol: Mol, dim: str, rng):
                                     "$$$$\n" + ctab.render_v3000(second, V3Style(), rng) + "\n$$$$"])
         st3.final_eol = rng.random() < 0.5
     elif dim == "line_endings":
-        st3.eol = "\r\n"
+        st3.eol = rng.choice(["\r\n", "\r\n", "\r", "mixed"])
         st3.final_eol = rng.random() < 0.5
     elif dim == "aamap_counts":
         st3.aamap = True
@@ -125,7 +125,7 @@ def vary(mol: Mol, dim: str, rng):
         st2 = V2Style(encoding="lines", dt_symbols=rng.random() < 0.5, counts_noise=(dim == "v2000_format"))
         if dim == "v2000_format":
             st2.header = rng.choice(HEADERS)
-            st2.eol = rng.choice(["\n", "\r\n"])
+            st2.eol = rng.choice(["\n", "\r\n", "\r", "mixed"])
         if dim == "v2000_unrelated_lines":
             st2.unrelated = 0.7
             st2.atom_lists = rng.choice([0, 2])
